@@ -151,6 +151,16 @@ class Normaliser:
                 return False
         return True
 
+    def _as_atom_square(self, d):
+        """if d is (a positive constant times) the defining radicand of a sqrt atom r, return c' * r with (c' r)^2 = d"""
+        for i, rad in self.rel.items():
+            nm = self.names[i]
+            if not nm.startswith("r_"):
+                continue
+            if rad == d:
+                return self.R.gens[i]
+        return None
+
     def _poly_positive(self, d):
         """sufficient syntactic test for d > 0: all coefficients positive and every generator that occurs to an odd power
         is a positive-declared variable or a square-root atom"""
@@ -347,6 +357,11 @@ class Normaliser:
                     self.rel[i] = n
                     self.rel_order.insert(0, i)
                     self.nf[t.id] = (g, R_.one)
+                elif self._as_atom_square(d) is not None:
+                    # d = r^2 for an existing square-root atom r (> 0): sqrt(n/d) = sqrt(n)/r
+                    self.rel[i] = n
+                    self.rel_order.insert(0, i)
+                    self.nf[t.id] = (g, self._as_atom_square(d))
                 elif self._poly_positive(d):
                     # sqrt(n/d) = sqrt(n d)/d for d > 0 : the atom stands for sqrt(n d)
                     self.rel[i] = self.red(n * d)
